@@ -1,9 +1,15 @@
 -- root of the proof library: property theorems (Props) and their helper lemmas
 import Blackbird.Props.C02
+import Blackbird.Props.C03
+import Blackbird.Props.C04
 import Blackbird.Props.C05
 import Blackbird.Props.C06
+import Blackbird.Props.C07
 import Blackbird.Props.C08
+import Blackbird.Props.C11
 import Blackbird.Props.C12
 import Blackbird.Props.C13
+import Blackbird.Props.C15
 import Blackbird.Props.C16
+import Blackbird.Props.C17
 import Blackbird.Props.C19
